@@ -1,7 +1,8 @@
 // C16 — a scenario means the same whether written in HCL or in YAML.
 //
 // One generated description (internal/scengen) is rendered by two independent
-// renderers (hclwrite / yaml.v2) and read through pandora's two front-ends.
+// renderers (hclwrite / yaml.v2, the latter with hand-written block, plain and
+// quoted scalars for drawn string values) and read through pandora's two front-ends.
 // Oracle: both readings succeed and are equal under a normalising comparison,
 // the HCL reading equals the configuration the description states field by
 // field, and the real providers built from the two files deliver identical ammo.
